@@ -48,6 +48,21 @@ func zzServeStreams(b *zzBroker) {
 	}
 }
 
+// zzDeviations > 0 switches on delay-bounded schedule exploration for the whole-API scenarios
+// (thorough tier): all schedules that deviate at most that many times from the canonical one.
+var zzDeviations = 0
+
+func zzC04eLifeDev2()         { zzDeviations = 2; zzC04eDownstreamLife() }
+func zzC20dBarrierDev2()      { zzDeviations = 2; zzC20dFlushBarrier() }
+func zzC05eOutageDev1()       { zzDeviations = 1; zzC05eOutage() }
+func zzC05fRefusedDev1()      { zzDeviations = 1; zzC05fResumeRefused() }
+func zzC01eEndToEndDev1()     { zzDeviations = 1; zzC01eEndToEnd() }
+func zzC04eLifeDev1()         { zzDeviations = 1; zzC04eDownstreamLife() }
+func zzC10gCensusDev1()       { zzDeviations = 1; zzC10gNoGoroutineLeft() }
+func zzC16CallsDev1()         { zzDeviations = 1; zzC16Calls() }
+func zzC07dTwoUpstreamsDev1() { zzDeviations = 1; zzC07dTwoUpstreams() }
+func zzC20dBarrierDev1()      { zzDeviations = 1; zzC20dFlushBarrier() }
+
 func zzConnect(b *zzBroker) *Conn {
 	n := 0
 	randomString = func() string {
@@ -57,6 +72,7 @@ func zzConnect(b *zzBroker) *Conn {
 	conn, err := ConnectWithConfig(b.config())
 	vf.Assume(err == nil)
 	vf.Settle()
+	vf.Deviations(zzDeviations)
 	return conn
 }
 
@@ -1001,6 +1017,7 @@ func zzC05eOutage() {
 	conn, err := ConnectWithConfig(conf)
 	vf.Assume(err == nil)
 	vf.Settle()
+	vf.Deviations(zzDeviations)
 	ctx := context.Background()
 	tr1 := b.last()
 	up, err := conn.OpenUpstream(ctx, "session", WithUpstreamFlushPolicyNone(), WithUpstreamQoS(message.QoSReliable), WithUpstreamResumedEventHandler(ev), WithUpstreamClosedEventHandler(ev))
@@ -1132,6 +1149,7 @@ func zzC05fResumeRefused() {
 	conn, err := ConnectWithConfig(conf)
 	vf.Assume(err == nil)
 	vf.Settle()
+	vf.Deviations(zzDeviations)
 	ctx := context.Background()
 	tr1 := b.last()
 	up, err := conn.OpenUpstream(ctx, "session", WithUpstreamFlushPolicyNone(), WithUpstreamResumedEventHandler(ev), WithUpstreamClosedEventHandler(ev))
@@ -1223,6 +1241,7 @@ func zzC10gNoGoroutineLeft() {
 	conn, err := ConnectWithConfig(conf)
 	vf.Assume(err == nil)
 	vf.Settle()
+	vf.Deviations(zzDeviations)
 	ctx := context.Background()
 	tr := b.last()
 	shape := vf.Choose("streams", 4) // 0 none, 1 open at close, 2 closed before, 3 open with pending traffic
@@ -1285,6 +1304,7 @@ func zzC10g2NoGoroutineLeftAfterOutage() {
 	conn, err := ConnectWithConfig(conf)
 	vf.Assume(err == nil)
 	vf.Settle()
+	vf.Deviations(zzDeviations)
 	ctx := context.Background()
 	tr1 := b.last()
 	up, err := conn.OpenUpstream(ctx, "session", WithUpstreamFlushPolicyNone(), WithUpstreamQoS(message.QoSReliable), WithUpstreamClosedEventHandler(ev), WithUpstreamResumedEventHandler(ev), WithUpstreamCloseTimeout(time.Second))
@@ -1517,9 +1537,19 @@ func zzC07dTwoUpstreams() {
 	vf.Assume(up1.WriteDataPoints(ctx, id, &message.DataPoint{ElapsedTime: 1, Payload: []byte{p1}}) == nil && up1.Flush(ctx) == nil)
 	vf.Assume(up2.WriteDataPoints(ctx, id, &message.DataPoint{ElapsedTime: 1, Payload: []byte{p2}}) == nil && up2.Flush(ctx) == nil)
 	vf.Settle()
-	chunks := zzUpstreamChunksOf(tr)
-	vf.Assert("each-stream-sends-under-its-own-alias", len(chunks) == 2 && chunks[0].StreamIDAlias == 10 && chunks[1].StreamIDAlias == 20 &&
-		chunks[0].StreamChunk.SequenceNumber == 1 && chunks[1].StreamChunk.SequenceNumber == 1)
+	byAlias := func(a uint32) []*message.UpstreamChunk {
+		var out []*message.UpstreamChunk
+		for _, c := range zzUpstreamChunksOf(tr) {
+			if c.StreamIDAlias == a {
+				out = append(out, c)
+			}
+		}
+		return out
+	}
+	// (the two streams' writers may reach the wire in either order)
+	vf.Assert("each-stream-sends-under-its-own-alias", len(zzUpstreamChunksOf(tr)) == 2 && len(byAlias(10)) == 1 && len(byAlias(20)) == 1 &&
+		byAlias(10)[0].StreamChunk.SequenceNumber == 1 && byAlias(20)[0].StreamChunk.SequenceNumber == 1 &&
+		byAlias(10)[0].StreamChunk.DataPointGroups[0].DataPoints[0].Payload[0] == p1 && byAlias(20)[0].StreamChunk.DataPointGroups[0].DataPoints[0].Payload[0] == p2)
 	// the broker acknowledges stream 1 only
 	tr.push(&message.UpstreamChunkAck{StreamIDAlias: 10, Results: []*message.UpstreamChunkResult{{SequenceNumber: 1, ResultCode: message.ResultCodeSucceeded, ResultString: "one"}}})
 	vf.Settle()
@@ -1542,8 +1572,7 @@ func zzC07dTwoUpstreams() {
 	// stream 2 keeps working: numbering, alias, totals
 	vf.Assert("stream2-still-writes", up2.WriteDataPoints(ctx, id, &message.DataPoint{ElapsedTime: 2, Payload: []byte{p1}}) == nil && up2.Flush(ctx) == nil)
 	vf.Settle()
-	chunks = zzUpstreamChunksOf(tr)
-	vf.Assert("stream2-continues-its-own-numbering", len(chunks) == 3 && chunks[2].StreamIDAlias == 20 && chunks[2].StreamChunk.SequenceNumber == 2)
+	vf.Assert("stream2-continues-its-own-numbering", len(zzUpstreamChunksOf(tr)) == 3 && len(byAlias(20)) == 2 && byAlias(20)[1].StreamChunk.SequenceNumber == 2)
 	tr.push(&message.UpstreamChunkAck{StreamIDAlias: 20, Results: []*message.UpstreamChunkResult{{SequenceNumber: 2, ResultCode: message.ResultCodeSucceeded}}})
 	vf.Settle()
 	vf.Assert("stream2-close-ok", up2.Close(ctx) == nil)
@@ -1900,6 +1929,7 @@ func zzC15dKeepaliveEndToEnd() {
 	conn, err := ConnectWithConfig(conf)
 	vf.Assume(err == nil)
 	vf.Settle()
+	vf.Deviations(zzDeviations)
 	effIv, effTo := iv, to
 	if iv == 0 {
 		effIv = 10 * time.Second
@@ -2028,6 +2058,7 @@ func zzC08e2CloseBoundExpiresDuringList() {
 	conn, err := ConnectWithConfig(conf)
 	vf.Assume(err == nil)
 	vf.Settle()
+	vf.Deviations(zzDeviations)
 	ctx := context.Background()
 	up, err := conn.OpenUpstream(ctx, "session", WithUpstreamFlushPolicyNone(), WithUpstreamQoS(message.QoSReliable), WithUpstreamCloseTimeout(200*time.Millisecond))
 	vf.Assume(err == nil)
